@@ -34,6 +34,8 @@ def main() -> int:
         return famdriver.main(a.prop, a.tier, seed, a.only, a.record)
     import importlib
 
+    if a.record:
+        os.environ["VERIF_RECORD"] = a.record
     mod = importlib.import_module(f"vf.props.{a.prop.lower()}")
     return mod.main(a.tier, seed, a)
 
